@@ -147,8 +147,8 @@ def check_annotations(case, r: R):
             sg = -1 if reverse else 1
             for q, unit, getter, drawer in (('voltage', 'V', ref.get_voltage, dsol.draw_voltage), ('current', 'A', ref.get_current, dsol.draw_current),
                                             ('power', 'W', ref.get_power, dsol.draw_power)):
-                if kind == 'time' and q == 'power':
-                    continue
+                # the time-function kind writes the power as |S| cos(wt + arg S) with S = V conj(I) / 2 of the amplitude
+                # phasors: whatever one thinks of that notation, it has to agree with the complex annotation (same S)
                 with r.lib(f'draw_{q}'):
                     el = drawer(name, reverse=reverse)
                     text = label_text(el)
